@@ -666,6 +666,15 @@ theorem fetch_after_any_history {α} (one : List Nat → Int → Bool → Except
         rw [← hk] at hcf
         rw [hcf, hone_k]
 
+
+/-- **Results are values.**  A caller who writes, in place, into a frame that an earlier fetch returned does not change the
+object: the cached branch of `get_stored_frame` hands out a copy and `get_stored_frames` stacks its frames into a new array
+(regenerated constants `singleCachedIsCopy`, `batchCachedIsCopy`, T1b; false before fix d078db8, where the frame was a writable
+view of the cached array).  Hence `fetch_after_any_history` holds for histories that contain such writes as well. -/
+theorem results_are_values {α} (one : List Nat → Int → Bool → Except ErrKind α) (all : List Nat → Except ErrKind (List α)) (n : Int)
+    (s : Img α) (i : Nat) : step one all n s (.scribble i) = s := by
+  simp [step, singleCachedIsCopy, batchCachedIsCopy]
+
 /-- **... instantiated for native 1-bit images**: whatever was fetched, cached or replaced before, frame `i + 1` is
 slice `i` of the pixel data the object holds NOW -/
 theorem history_native_bits (rows cols n : Nat) (hN : 0 < rows * cols) (pd0 : List Nat) (ops : List Op)
@@ -709,17 +718,19 @@ example :
       (fun pd => if 2 * (1 * 4) ≤ 8 * pd.length then .ok ((List.range 2).map (sliceBits pd (1 * 4))) else .error .value) 2 batchSkel
       (run (fun pd k ai => memFrameBits pd 1 4 1 2 k ai)
         (fun pd => if 2 * (1 * 4) ≤ 8 * pd.length then .ok ((List.range 2).map (sliceBits pd (1 * 4))) else .error .value) 2
-        ⟨[0xA5], none⟩ [.fetch 1 false, .whole, .fetch 7 false, .replace [0x5A]]) 1 false).2
+        ⟨[0xA5], none⟩ [.fetch 1 false, .whole, .scribble 0, .fetch 7 false, .replace [0x5A]]) 1 false).2
       = .ok (sliceBits [0x5A] 4 0) :=
-  history_native_bits 1 4 2 (by decide) [0xA5] [.fetch 1 false, .whole, .fetch 7 false, .replace [0x5A]] batchSkel (Or.inr rfl) 0
+  history_native_bits 1 4 2 (by decide) [0xA5] [.fetch 1 false, .whole, .scribble 0, .fetch 7 false, .replace [0x5A]] batchSkel (Or.inr rfl) 0
     (by decide) (by decide)
 
 
 /-- **The file behind a lazily read image is open for every read and closed again after every call** - for ANY sequence
 of calls (single fetches, batch reads of any length, whether the batch reads go through `get_raw_frame` - a nested `with
 reader:` - or straight to the reader): every read finds the file open, and between two calls the reader is back in its rest
-state (nothing entered; the file closed iff the reader was given a path and owns the file).  Over the regenerated
-`__enter__` / `__exit__` (T11g), by induction over the calls.  (Tie C: images opened from a path are read in every order,
+state (nothing entered; the file closed iff the reader was given a path and owns the file).  REGENERATED: what `__enter__` /
+`__exit__` do with the depth counter and the file (T11g).  HAND-WRITTEN: that `get_raw_frame` wraps its one read and the batch
+methods their loop in `with reader:` (`LazyCall.ops`) - dropping a `with` in the source leaves this theorem true; that half is tied
+by the L2 `reader-calls` comparison (depth / open flag / reads after real call sequences).  By induction over the calls.  (Tie C: images opened from a path are read in every order,
 after refused requests and in batches.) -/
 theorem reader_reopens_for_every_call (shouldClose : Bool) (calls : List LazyCall) :
     runCalls shouldClose calls = (restState shouldClose, List.replicate (calls.map LazyCall.reads).sum true) :=
